@@ -190,6 +190,23 @@ def job_lookup():
                         conds.append(eq_goal(Q.of(ref[k]), Q.of(out[l][k])))
                 res.append(discharge(Obligation('%s[%d] == orderl%d.%s (all entries, all I)' % (nm, l, l, attr), z3.And(*conds), [],
                                                 replay=lambda md, nm=nm, l=l: (True, '%s[%d] differs from the degree table' % (nm, l)), key='lookup:%s:%d' % (nm, l))))
+    import ast
+    from symx.solve import REPO
+    class _Names:
+        def __init__(self, mod):
+            self.mod = mod
+        def __getattr__(self, a):
+            return (self.mod, a)
+    isrc = open(os.path.join(REPO, 'TidalPy/tides/modes/mode_calc_helper/__init__.py')).read()
+    for n in ast.parse(isrc).body:
+        if isinstance(n, ast.Assign) and getattr(n.targets[0], 'id', None) == 'inclination_functions_lookup':
+            nsn = {'inclin_calc_orderl%d' % L: _Names('inclin_calc_orderl%d' % L) for L in range(2, 8)}
+            d = eval(compile(ast.Expression(body=n.value), 'helper_init', 'eval'), nsn)
+            loader.ENCODED.append({'file': 'TidalPy/tides/modes/mode_calc_helper/__init__.py', 'function': 'inclination_functions_lookup (module dict)', 'sha256_16': solve.sha_of(ast.get_source_segment(isrc, n))})
+            on, Lz = z3.Bool('on'), z3.Int('L')
+            good = z3.Or(*[z3.And(on == o, Lz == L) for o, row in d.items() for L, v in row.items() if v == ('inclin_calc_orderl%d' % L, 'inclination_%s_maxl_%d' % ('on' if o else 'off', L))])
+            res.append(discharge(Obligation('inclination_functions_lookup[on][L] is inclin_calc_orderlL.inclination_{on,off}_maxl_L for all on, L in 2..7', good, [Lz >= 2, Lz <= 7],
+                                            with_axioms=False, with_dens=False, replay=lambda md: (True, 'wrong/missing helper at [%s][%s]' % (md.get('on'), md.get('L'))), key='helperdict')))
     return {'results': res, 'encoded': loader.ENCODED, 'axioms': CTX.axiom_notes, 'label': 'lookup'}
 
 
